@@ -244,7 +244,7 @@ theorem finish_shape {c : Cfg} {n : Node} (hi : Inv c n) {pb : Block}
       · simp [signed, hH, setHeightW, commitTail]
       · simp [signed, hH, setHeightW, commitTail, Store.applyAll]
 
-theorem buildAndFinish_shape {c : Cfg} {n n0 : Node} (hi : Inv c n) (v : Bytes) (h0 : Inv c n0)
+theorem buildAndFinish_shape {c : Cfg} {n n0 : Node} (v : Bytes) (h0 : Inv c n0)
     (e1 : n0.store = n.store.apply (.setMeta lastBatchDataKey v)) (e2 : n0.lastState = n.lastState)
     (ls : Sig) (lhh ldh : Bytes)
     (hl : n.store.height + 1 > c.initialHeight → ∃ p, n.store.getBlock n.store.height = some p ∧ lhh = p.sh.hdr.hash)
@@ -344,6 +344,103 @@ theorem publish_shape {c : Cfg} {n : Node} (hi : Inv c n) (resp : SeqResp) (ex :
           · exact hcur.1
           · split
             · exact hcur.2
-            · exact buildAndFinish_shape hi _ (inv_setMeta hi lastBatchDataKey _ bd) rfl rfl ls lhh ldh (prevInfo_link hprev) txs ts ex
+            · exact buildAndFinish_shape _ (inv_setMeta hi lastBatchDataKey _ bd) rfl rfl ls lhh ldh (prevInfo_link hprev) txs ts ex
+
+/-! ## crash points of a step -/
+
+def isSetHeight : SW → Bool
+  | .setHeight _ => true
+  | _ => false
+
+/-- **the bad cut**: the crash falls right after a `setHeight` write and that write is not the last one of the
+list (i.e. after `SetHeight`, before `UpdateState`) -/
+def badCut (k : Nat) (ws : List SW) : Bool := decide (k < ws.length) && (ws.take k).getLast?.any isSetHeight
+
+/-- how a later durable image relates to an earlier one: the chain height does not decrease, rises by at most one
+(above the genesis), and no block at or below the earlier chain height differs -/
+def Adv (c : Cfg) (d d' : Store) : Prop :=
+  d.height ≤ d'.height ∧ d'.height ≤ max d.height (c.initialHeight - 1) + 1 ∧
+  ∀ h, h ≤ d.height → d'.getBlock h = d.getBlock h
+
+theorem Adv.refl (c : Cfg) (d : Store) : Adv c d d := ⟨Nat.le_refl _, by omega, fun _ _ => rfl⟩
+
+theorem commitTail_take (d1 : Store) (h : Nat) (st' : State) (hh : d1.height = h) (j : Nat) :
+    d1.height ≤ (d1.applyAll ((commitTail h st').take j)).height ∧
+    (d1.applyAll ((commitTail h st').take j)).height ≤ d1.height + 1 ∧
+    ∀ k, (d1.applyAll ((commitTail h st').take j)).getBlock k = d1.getBlock k := by
+  subst hh
+  match j with
+  | 0 => simp [Store.applyAll]
+  | 1 => simp [commitTail, Store.applyAll, height_setHeight]
+  | j+2 => simp [commitTail, Store.applyAll, height_setHeight]
+
+theorem commitTail_state (d1 : Store) (h : Nat) (st' : State) :
+    (d1.applyAll (commitTail h st')).state = some st' := by
+  simp [commitTail, Store.applyAll]
+
+theorem commitTail_noWm (h : Nat) (st' : State) : ∀ w ∈ commitTail h st', NoWm w := by
+  intro w hw
+  simp only [commitTail, List.mem_cons, List.mem_nil_iff, or_false] at hw
+  rcases hw with rfl | rfl <;> simp [NoWm]
+
+/-- a step keeps the node in sync with its durable image, and its store is the old store with exactly the
+reported writes applied -/
+theorem publish_synced {c : Cfg} {n : Node} (hi : Inv c n) (hs : Synced c n) (hw : WmOK n.store)
+    (r : SeqResp) (e : ExecResp) :
+    Synced c (publish c n r e).1 ∧ WmOK (publish c n r e).1.store ∧
+    (publish c n r e).1.store = n.store.applyAll (publish c n r e).2.1 := by
+  obtain ⟨pre, hpre, hsh⟩ := publish_shape hi r e
+  have hd := dinv_of_node hi hs hw
+  obtain ⟨_, _, _, a4⟩ := harmless_applyAll hd hpre
+  rcases hsh with ⟨b1, b2, b3, _⟩ | ⟨st', b1, b2, b3, b4, _⟩
+  · refine ⟨?_, ?_, by rw [b2, b1]⟩
+    · unfold Synced
+      rw [b2, b3, a4]; exact hs
+    · rw [b2]; exact wmOK_applyAll (fun w hw' => (hpre w hw').noWm) hw
+  · refine ⟨Or.inl ⟨?_, ?_⟩, ?_, by rw [b3, b2]⟩
+    · rw [b3, b4, applyAll_append, commitTail_state]
+    · rw [b4, b1]; exact hi.low
+    · rw [b3]
+      refine wmOK_applyAll (fun w hw' => ?_) hw
+      rcases List.mem_append.mp hw' with h | h
+      · exact (hpre w h).noWm
+      · exact commitTail_noWm _ _ w h
+
+/-- **(c) every crash point of every step, except the bad cut, leaves an image satisfying the disk invariant**;
+and every crash point (the bad cut included) leaves the committed blocks alone and raises the height by ≤ 1 -/
+theorem publish_prefix {c : Cfg} {n : Node} (hi : Inv c n) (hs : Synced c n) (hw : WmOK n.store)
+    (r : SeqResp) (e : ExecResp) (k : Nat) :
+    Adv c n.store (n.store.applyPrefix k (publish c n r e).2.1) ∧
+    (badCut k (publish c n r e).2.1 = false → DInv c (n.store.applyPrefix k (publish c n r e).2.1)) := by
+  obtain ⟨hsy, hwm', hstore⟩ := publish_synced hi hs hw r e
+  have hinv' := publish_inv hi r e
+  obtain ⟨pre, hpre, hsh⟩ := publish_shape hi r e
+  have hd := dinv_of_node hi hs hw
+  have htk : ∀ w ∈ pre.take k, Harmless c n.store w := fun w hw' => hpre w (List.mem_of_mem_take hw')
+  obtain ⟨a1, a2, a3, _⟩ := harmless_applyAll hd htk
+  rcases hsh with ⟨b1, _, _, _⟩ | ⟨st', _, b2, b3, _, _⟩
+  · rw [b1]
+    unfold Store.applyPrefix
+    exact ⟨⟨by omega, by omega, fun h hh => a3 h (by omega)⟩, fun _ => a1⟩
+  · rw [b2]
+    unfold Store.applyPrefix
+    rw [List.take_append, applyAll_append]
+    obtain ⟨t1, t2, t3⟩ := commitTail_take (n.store.applyAll (pre.take k)) n.store.height st' a2 (k - pre.length)
+    refine ⟨⟨by omega, by omega, fun h hh => by rw [t3, a3 h (by omega)]⟩, fun hbad => ?_⟩
+    by_cases h1 : k ≤ pre.length
+    · have : k - pre.length = 0 := by omega
+      rw [this]; exact a1
+    · by_cases h2 : k = pre.length + 1
+      · exfalso
+        subst h2
+        have : badCut (pre.length + 1) (pre ++ commitTail n.store.height st') = true := by
+          simp [badCut, commitTail, List.take_append, isSetHeight]
+        rw [this] at hbad; cases hbad
+      · have hk : (pre ++ commitTail n.store.height st').length ≤ k := by simp [commitTail]; omega
+        have e1 : pre.take k = pre := List.take_of_length_le (by omega)
+        have e2 : (commitTail n.store.height st').take (k - pre.length) = commitTail n.store.height st' :=
+          List.take_of_length_le (by simp [commitTail]; omega)
+        rw [e1, e2, ← applyAll_append, ← b3]
+        exact dinv_of_node hinv' hsy hwm'
 
 end Producer
